@@ -252,7 +252,7 @@ def main_check(modname, tier, seed, extra=None):
     cfgs = mod.configs(tier, seed)
     ids = [c["id"] for c in cfgs]
     assert len(ids) == len(set(ids)), "duplicate cfg ids: %s" % [i for i in ids if ids.count(i) > 1][:5]
-    budget = getattr(mod, "CONFIG_BUDGET_S", {"quick": 900, "thorough": 3600})[tier]
+    budget = getattr(mod, "CONFIG_BUDGET_S", {"quick": 900, "thorough": 1800})[tier]
     nproc = int(os.environ.get("VERIF_JOBS", str(os.cpu_count() or 4)))
     import multiprocessing as mp
     ctx = mp.get_context("fork")
